@@ -36,6 +36,9 @@
 #include <fcppt/container/grid/spiral_range_impl.hpp>
 #include <fcppt/tuple/get.hpp>
 #include <fcppt/math/int_range_count.hpp>
+#include <fcppt/range/empty.hpp>
+#include <fcppt/range/from_pair.hpp>
+#include <fcppt/range/singular.hpp>
 #include <fcppt/range/size.hpp>
 #include <fcppt/type_iso/strong_typedef.hpp>
 #include <fcppt/type_iso/undecorate.hpp>
@@ -47,6 +50,7 @@
 #include <list>
 #include <string>
 #include <type_traits>
+#include <utility>
 #include <vector>
 
 namespace
@@ -167,7 +171,13 @@ std::string range_line(fcppt::int_range<Int> const &r, __int128 const b, __int12
       rs = num(fcppt::range::size(r));
   }
   // begin() / end() observed directly: the clamp of the constructor is visible in *end()
-  return res + " rs=" + rs + " be=" + num(fcppt::type_iso::undecorate(*r.begin())) + ":" + num(fcppt::type_iso::undecorate(*r.end()));
+  res += " rs=" + rs + " be=" + num(fcppt::type_iso::undecorate(*r.begin())) + ":" + num(fcppt::type_iso::undecorate(*r.end()));
+  // range::empty / range::singular (singular increments a copy of begin(): never at the maximum, because the range is not empty then)
+  res += std::string(" es=") + (fcppt::range::empty(r) ? "1" : "0");
+  if constexpr (Strong) // std::next(int_iterator<strong typedef>) does not compile: the difference_type is the strong typedef
+    return res + "-";
+  else
+    return res + (fcppt::range::singular(r) ? "1" : "0");
 }
 
 template <typename Int, typename U, bool Strong>
@@ -359,7 +369,7 @@ std::string enum_line(fcppt::enum_::range<E> const &r)
     out.push_back(num(fcppt::cast::enum_to_int<fcppt::enum_::size_type<E>>(v)));
   }
   return (overrun ? std::string("overrun") : "n=" + std::to_string(out.size()) + " e=" + join_str(out)) +
-         " size=" + num(r.size());
+         " size=" + num(r.size()) + " es=" + (fcppt::range::empty(r) ? "1" : "0") + (fcppt::range::singular(r) ? "1" : "0");
 }
 
 template <typename E, unsigned N>
@@ -581,6 +591,16 @@ std::string cycp_line(std::vector<std::string> const &t)
   }
   else
     r += " val=-";
+  if (i < len)
+  {
+    // a cyclic iterator over mutable iterators refers to the element itself
+    using miterator = fcppt::cyclic_iterator<std::vector<cell>::iterator>;
+    miterator const m{c.begin() + i, miterator::boundary{c.begin() + f1, c.begin() + s1}};
+    m->v = -7;
+    (*m).w = -8;
+    if (c[static_cast<std::size_t>(i)].v != -7 || c[static_cast<std::size_t>(i)].w != -8 || cx->v != -7)
+      return "write-through-mismatch";
+  }
   x.swap(y);
   r += " sw=" + show(x) + "," + show(y);
   fcppt::iterator::swap(x, y);
@@ -761,14 +781,18 @@ std::string itr_line(std::vector<std::string> const &t)
   if (!(i <= j && j <= len && len <= 256))
     return "bad-op";
   C c{make_container<C>(len)};
-  // alternate between the constructor, make_range and const / non-const iterators
-  if ((i + j) % 2U == 0U)
+  // alternate between the constructor, make_range, from_pair and const / non-const iterators
+  auto const tail = [](auto const &r)
   {
-    auto const r = fcppt::iterator::make_range(std::next(c.begin(), static_cast<long>(i)), std::next(c.begin(), static_cast<long>(j)));
-    return range_elems(r) + " size=" + num(fcppt::range::size(r));
-  }
+    return range_elems(r) + " size=" + num(fcppt::range::size(r)) + " es=" + (fcppt::range::empty(r) ? "1" : "0") +
+           (fcppt::range::singular(r) ? "1" : "0");
+  };
+  if ((i + j) % 3U == 2U)
+    return tail(fcppt::range::from_pair(std::make_pair(std::next(c.cbegin(), static_cast<long>(i)), std::next(c.cbegin(), static_cast<long>(j)))));
+  if ((i + j) % 2U == 0U)
+    return tail(fcppt::iterator::make_range(std::next(c.begin(), static_cast<long>(i)), std::next(c.begin(), static_cast<long>(j))));
   fcppt::iterator::range<typename C::const_iterator> const r{std::next(c.cbegin(), static_cast<long>(i)), std::next(c.cbegin(), static_cast<long>(j))};
-  return range_elems(r) + " size=" + num(fcppt::range::size(r));
+  return tail(r);
 }
 
 // operator== / != of two ranges over one container, begin() / end()
@@ -800,8 +824,16 @@ std::string adr_line(std::vector<std::string> const &t)
   auto const r2 = fcppt::iterator::adapt_range(cc);
   static_assert(std::is_same_v<decltype(r1.begin()), typename C::iterator>);
   static_assert(std::is_same_v<decltype(r2.begin()), typename C::const_iterator>);
-  std::string const a = range_elems(r1) + " size=" + num(fcppt::range::size(r1));
-  std::string const b = range_elems(r2) + " size=" + num(fcppt::range::size(r2));
+  auto const es = [](auto const &r) { return std::string(" es=") + (fcppt::range::empty(r) ? "1" : "0") + (fcppt::range::singular(r) ? "1" : "0"); };
+  std::string const a = range_elems(r1) + " size=" + num(fcppt::range::size(r1)) + es(r1);
+  std::string const b = range_elems(r2) + " size=" + num(fcppt::range::size(r2)) + es(r2);
+  // the non-const range hands out mutable iterators: writing through one changes the container
+  if (len > 0)
+  {
+    *r1.begin() = -5;
+    if (c.front() != -5)
+      return "write-through-mismatch";
+  }
   bool const same_ends = r1.begin() == c.begin() && r1.end() == c.end() && r2.begin() == cc.begin() && r2.end() == cc.end();
   return a == b && same_ends ? a : "adapt-range-inconsistent " + a + " | " + b;
 }
